@@ -63,8 +63,9 @@ func partial(t *rapid.T, label string, wild, pre, build bool) string {
 		if pre && rapid.IntRange(0, 9).Draw(t, label+"hp") < 3 {
 			s += "-" + rapid.SampledFrom(litPres).Draw(t, label+"pre")
 		}
-		if build && rapid.IntRange(0, 19).Draw(t, label+"hb") == 0 {
-			s += "+" + rapid.SampledFrom([]string{"b", "1", "build.5"}).Draw(t, label+"bld")
+		if build && rapid.IntRange(0, 11).Draw(t, label+"hb") == 0 {
+			// (metadata may contain the letters that elsewhere mean a wildcard)
+			s += "+" + rapid.SampledFrom([]string{"b", "1", "build.5", "x86", "linux", "exp.sha.5114f85", "X"}).Draw(t, label+"bld")
 		}
 	}
 	return s
